@@ -772,6 +772,17 @@ def search(payload):
     for c1_, c2_ in (("1", "True"), ("True", "1"), ("1", "1.0"), ("0", "False"), ("0.0", "0"), ("2", "2.0")):
         for o1 in BIN:
             specs += [["bin", o1, ["c1", "ne_p", c1_], ["c1", "ne_p", c2_]], ["bin", o1, ["un", "all_p", ["c1", "ne_p", c1_]], ["un", "all_p", ["c1", "ne_p", c2_]]]]
+    # beyond the small bounds: 40-deep chains with DISTINCT leaves on both spines, constants beyond 2**53, names outside ASCII / not NFKC-normal
+    for d in (33, 40, 70):
+        sl, sr = ["var", "x0"], ["var", f"x{d}"]
+        for i in range(1, d):
+            sl = ["bin", "&|^"[i % 3], sl, ["var", f"x{i}"]]
+            sr = ["bin", "&|^"[i % 3], ["var", f"x{d - i}"], sr]
+        specs += [sl, sr, ["un", "~", sl]]
+    for c_ in ("2**53 + 1", "2**64", "-(2**64)", "10**30", "2**53 - 1", "1e300", "-1e-300"):
+        specs += [["c1", "ne_p", c_], ["bin", "&", ["c1", "ne_p", c_], ["var", "a"]], ["un", "all_p", ["c1", "ne_p", c_]]]
+    for nm in ("x\u00b2", "\u00b5", "\ufb01le", "\uff50", "\u2160", "A\u030a", "\u212b", "caf\u00e9", "\u03bc", "x2", "\u540d\u524d", "a b", ""):
+        specs += [["var", nm], ["bin", "|", ["var", nm], ["var", "x2"]], ["un", "~", ["var", nm]]]
     # long chains and deep nests (depth only limited by Python's own recursion limit, which the property does not speak about)
     for d in (20, 60, 120):
         s = ["var", "p"]
